@@ -265,7 +265,8 @@ def record_problems(o, P):
                 # equal and opposite for acid-base pairs of reported protein side chains
                 if pq and q * pq < 0 and not is_ion and g.atom.type == 'atom' and len(by_label.get(d.label, [])) == 1:
                     h = by_label[d.label][0]
-                    if h.atom.type == 'atom' and g.use_in_calculations() and h.use_in_calculations():
+                    if (h.atom.type == 'atom' and g.use_in_calculations() and h.use_in_calculations()
+                            and not (P.remove_penalised_group and (g.coupled_titrating_group or h.coupled_titrating_group))):
                         back = [e.value for e in h.determinants['coulomb'] if e.label == g.label]
                         mine = [e.value for e in g.determinants['coulomb'] if e.label == h.label]
                         if len(back) != len(mine) or abs(sum(back) + sum(mine)) > 1e-9:
